@@ -1,16 +1,18 @@
 #!/bin/sh
-# usage: tools/try_seed.sh <seed dir with patch.diff + demo.cpp> <property> [extra vcheck args]
-# applies the seeded change to /repo, shows that the demo fails with it and passes without it, runs the check, reverts.
+# usage: tools/try_seed.sh <seed dir with patch.diff + demo.cpp|demo.sh> <property> [extra vcheck args]
+# Applies the seeded change to a scratch worktree of /repo's HEAD (UV_REPO points the check at it, so /repo itself and any run that is
+# using it are not disturbed), shows that the demo fails with it and passes without it, runs the check, removes the worktree.
+# (Equivalent to: git -C /repo apply <patch>; bin/vcheck <property>; git -C /repo checkout -- .)
 set -u
 S=$1; P=$2; shift 2
 cd /verif
-git -C /repo status --short | grep -v '^??' && { echo "repo not clean"; exit 2; }
-demo() { if [ -f $S/demo.sh ]; then (cd $S && INC=/repo/include sh ./demo.sh); else g++ -std=c++20 -O1 -I/repo/include $S/demo.cpp -o /tmp/seed_demo_bin 2>/dev/null && { /tmp/seed_demo_bin > /tmp/seed_demo_out 2>&1; rc=$?; tail -3 /tmp/seed_demo_out; echo "demo exit=$rc"; }; fi; }
-echo "== unmodified"; demo
-git -C /repo apply $S/patch.diff || { echo "patch does not apply"; exit 2; }
-echo "== with change"; demo
-timeout 3000 bin/vcheck $P "$@" 2>&1 | grep -v '^KNOWN-FINDING\|^\[build\]' | tail -12
-git -C /repo checkout -- .
-rm -f /tmp/seed_demo_bin
-git -C /repo status --short | grep -v '^??'
-echo "== reverted"
+W=/tmp/seedrepo_$$
+git -C /repo worktree add -q --detach $W HEAD || exit 2
+demo() { R=$1; if [ -f $S/demo.sh ]; then (cd $S && INC=$R/include sh ./demo.sh > /tmp/seed_demo_out_$$ 2>&1; rc=$?; tail -3 /tmp/seed_demo_out_$$; echo "demo exit=$rc"); else g++ -std=c++20 -O1 -I$R/include $S/demo.cpp -o /tmp/seed_demo_bin_$$ 2>/dev/null && { /tmp/seed_demo_bin_$$ > /tmp/seed_demo_out_$$ 2>&1; rc=$?; tail -3 /tmp/seed_demo_out_$$; echo "demo exit=$rc"; }; fi; }
+echo "== unmodified"; demo /repo
+git -C $W apply $S/patch.diff || { echo "patch does not apply"; git -C /repo worktree remove --force $W; exit 2; }
+echo "== with change"; demo $W
+UV_REPO=$W timeout 3000 bin/vcheck $P "$@" 2>&1 | grep -v '^KNOWN-FINDING\|^\[build\]' | tail -12
+git -C /repo worktree remove --force $W
+rm -f /tmp/seed_demo_bin_$$ /tmp/seed_demo_out_$$
+echo "== scratch worktree removed"
